@@ -4,6 +4,7 @@ import (
 	"fmt"
 	"strings"
 	"testing"
+	"time"
 
 	"github.com/jdillenkofer/pithos/verif/mc/ev"
 	"github.com/jdillenkofer/pithos/verif/mc/sx"
@@ -115,6 +116,9 @@ var versioningSeeds = [][]sx.Op{
 	// a null version that is younger than a real version (written during a Suspended period)
 	{{Kind: "CreateBucket", B: "bka"}, {Kind: "PutVersioning", B: "bka", Opt: map[string]string{"status": "Enabled"}}, {Kind: "Put", B: "bka", K: "k1", Body: "a"},
 		{Kind: "PutVersioning", B: "bka", Opt: map[string]string{"status": "Suspended"}}, {Kind: "Put", B: "bka", K: "k1", Body: "b"}},
+	// Suspended while the current object is a real version (no null version yet): the next write must leave it alone
+	{{Kind: "CreateBucket", B: "bka"}, {Kind: "PutVersioning", B: "bka", Opt: map[string]string{"status": "Enabled"}}, {Kind: "Put", B: "bka", K: "k1", Body: "a"},
+		{Kind: "Put", B: "bka", K: "k1", Body: "b"}, {Kind: "PutVersioning", B: "bka", Opt: map[string]string{"status": "Suspended"}}},
 }
 
 func TestC02(t *testing.T) {
@@ -144,6 +148,13 @@ func TestC02(t *testing.T) {
 func TestC13(t *testing.T) {
 	run := ev.NewRun("C13", "model_checking")
 	run.Assumptions = []string{"SQLite metadata store", "one bucket, one key, bodies a/b", "1 s of virtual time between operations so that a changed timestamp is visible"}
+	// the rich alphabet (appends, multipart, copies, conditional puts) first: shallow but wide
+	r := &sx.Search{Run: run, TestRun: "^TestWorker$", Seeds: versioningSeeds, Stacks: []string{world.StackNamed}, Spec: sx.SpecByName("C13rich"), Depth: 2}
+	if !quick() {
+		r.Depth = 4
+	}
+	r.Until = time.Now().Add(time.Until(run.Deadline()) * 45 / 100)
+	r.Explore()
 	s := &sx.Search{Run: run, TestRun: "^TestWorker$", Seeds: versioningSeeds, Stacks: []string{world.StackSQL}}
 	if quick() {
 		s.Spec, s.Depth = sx.SpecByName("C13q"), 4
@@ -152,11 +163,6 @@ func TestC13(t *testing.T) {
 	}
 	s.Explore()
 	total := *s
-	r := &sx.Search{Run: run, TestRun: "^TestWorker$", Seeds: versioningSeeds, Stacks: []string{world.StackNamed}, Spec: sx.SpecByName("C13rich"), Depth: 2}
-	if !quick() {
-		r.Depth = 4
-	}
-	r.Explore()
 	total.Merge(r)
 	total.Coverage()
 	fmt.Printf("C13: states=%d transitions=%d depth=%v\n", total.States, total.Transitions, total.DepthDone)
